@@ -15,7 +15,8 @@ class Violation(Exception):
 
 
 class Part:
-    def __init__(self, name, run, strategy=None, enum=None, budget=None, cap_s=None, doc=""):
+    def __init__(self, name, run, strategy=None, enum=None, budget=None, cap_s=None, doc="", presharded=False):
+        self.presharded = presharded  # enum(ctx) already yields only this worker's share (uses ctx.widx/ctx.nworkers)
         self.name = name
         self.run = run                # run(case, ctx) -> info dict | None ; raises Violation
         self.strategy = strategy      # callable(ctx) -> hypothesis strategy   (kind hyp)
@@ -184,7 +185,7 @@ def _run_part(ctx, part, stop_ev):
         n = 0
         complete = True
         for i, case in enumerate(part.enum(ctx)):
-            if i % ctx.nworkers != ctx.widx:
+            if not part.presharded and i % ctx.nworkers != ctx.widx:
                 continue
             if stop_ev.is_set():
                 complete = False
